@@ -60,6 +60,29 @@ int main (void) {
 			if (S[i] >= 0 && (nsync_time_cmp (nsync_time_zero, a) > 0 || nsync_time_cmp (a, nsync_time_no_deadline) > 0)) fail ("zero<=t<=no_deadline", S[i], Nn[j], 0, 0, 0, 0, 0, 0);
 		}
 	}
+	/* (b') the comparison at the ends of the range, where a - b itself would overflow the seconds field: nsync_time_no_deadline is
+	   the largest representable time and is compared with everything, including times before the epoch */
+	{
+		static const long S2[] = { 0, 1, -1, 2147483647L, -2147483648L, 1L << 61, -(1L << 61), 1L << 62, -(1L << 62), (1L << 62) + 1, -(1L << 62) - 1,
+					   9223372036854775807L, 9223372036854775806L, -9223372036854775807L - 1, -9223372036854775807L };
+		static const long N2[] = { 0, 1, 500000000, 999999999 };
+		unsigned i, j, k, l;
+		for (i = 0; i < sizeof S2 / sizeof S2[0]; i++) for (j = 0; j < sizeof N2 / sizeof N2[0]; j++)
+		for (k = 0; k < sizeof S2 / sizeof S2[0]; k++) for (l = 0; l < sizeof N2 / sizeof N2[0]; l++) {
+			nsync_time a = mk (S2[i], N2[j]), b = mk (S2[k], N2[l]);
+			int c = nsync_time_cmp (a, b), e = sgn (val (a) - val (b));
+			cases++; nontrivial++;
+			if ((c > 0) - (c < 0) != e) fail ("cmp/extreme", S2[i], N2[j], S2[k], N2[l], c, 0, e, 0);
+			if (((c > 0) - (c < 0)) != -((nsync_time_cmp (b, a) > 0) - (nsync_time_cmp (b, a) < 0))) fail ("cmp antisymmetry", S2[i], N2[j], S2[k], N2[l], c, nsync_time_cmp (b, a), 0, 0);
+		}
+		for (i = 0; i < sizeof S2 / sizeof S2[0]; i++) for (j = 0; j < sizeof N2 / sizeof N2[0]; j++) {
+			nsync_time a = mk (S2[i], N2[j]);
+			cases++;
+			if (nsync_time_cmp (a, nsync_time_no_deadline) > 0) fail ("t<=no_deadline", S2[i], N2[j], 0, 0, 0, 0, 0, 0);
+			if (S2[i] >= 0 && nsync_time_cmp (nsync_time_zero, a) > 0) fail ("zero<=t", S2[i], N2[j], 0, 0, 0, 0, 0, 0);
+			if (S2[i] < 0 && nsync_time_cmp (a, nsync_time_zero) >= 0) fail ("negative<zero", S2[i], N2[j], 0, 0, 0, 0, 0, 0);
+		}
+	}
 	{
 		static const unsigned U[] = { 0, 1, 999, 1000, 1001, 999999, 1000000, 1000001, 2147483647u, 2147483648u, 4294967295u, 4294967u, 4294968u, 3600000u, 86400000u };
 		unsigned i; unsigned long long x = 88172645463325252ULL;
